@@ -346,7 +346,7 @@ FUNCS = [S, "similari::track::store::TrackStore::{new_track, foreign_track_dista
 
 def step_queries():
     out = []
-    for (nd, ns, sh, tier) in [(1, 0, 1, 'quick'), (1, 1, 1, 'quick'), (2, 1, 1, 'quick'), (1, 2, 1, 'quick'), (2, 2, 1, 'thorough'), (2, 1, 2, 'thorough')]:
+    for (nd, ns, sh, tier) in [(0, 1, 1, 'quick'), (1, 0, 1, 'quick'), (1, 1, 1, 'quick'), (2, 1, 1, 'quick'), (1, 2, 1, 'quick'), (2, 2, 1, 'thorough'), (2, 1, 2, 'thorough')]:
         out.append(MQ("step_sort_d%d_t%d_s%d" % (nd, ns, sh), tier, mk_step(nd, ns, sh),
                       "one Sort::predict_with_scene call from an arbitrary valid tracker state: one record per detection in order echoing box / custom id / scene / new epoch; "
                       "continuations only within the scene, through the gate, unexpired, maximum-weight one-to-one; new ids = counter + k; lengths; untouched tracks unchanged; only this scene's epoch advances",
